@@ -214,6 +214,34 @@ def verifyAgainstTx (m : QMsg) (data : Bytes) : VerifyRes :=
     | some d =>
       if tryPrefixes m.valset m.sigs d.1 d.2.1 d.2.2 data m.sigs.length then .ok else .notVerified
 
+/-! ## receipts
+
+`TxExecutedProof.GetReceipt` is go-ethereum's `Receipt.UnmarshalBinary`: the consensus encoding of a
+receipt is `[type byte ‖] rlp([postStateOrStatus, cumulativeGasUsed, bloom, logs])`, and whether the
+receipt REPORTS SUCCESS is read off its first field alone (`Receipt.setStatus`):
+
+* the single byte `0x01`  → `Status = 1` (successful),
+* the empty string        → `Status = 0` (failed),
+* a 32-byte string        → `PostState` = that string, the post-transaction STATE ROOT of a receipt in
+  the form used before EIP-658 (or emitted by a node that fills in both `root` and `status`:
+  `statusEncoding` writes the root whenever there is one, whatever `Status` says — also for a
+  REVERTED transaction).  Such a receipt carries NO status code; `Status` keeps its zero value,
+* anything else           → decoding error.
+
+The router's gate is `receipt.Status != ReceiptStatusSuccessful`, so only the first form passes. -/
+
+/-- go-ethereum `Receipt.setStatus` on the first field of the serialized receipt: the `Status` the
+    decoded receipt has (`none`: the receipt does not decode). -/
+def receiptStatusOf (f : Bytes) : Option Nat :=
+  if f = [1] then some 1
+  else if f = [] then some 0
+  else if f.length = 32 then some 0
+  else none
+
+/-- the `PostState` of the decoded receipt (`[]`: the receipt carries a status code, or nothing) -/
+def receiptPostState (f : Bytes) : Bytes :=
+  if f.length = 32 then f else []
+
 /-! ## router -/
 
 structure TxProof where
@@ -238,7 +266,24 @@ structure TxProof where
                            -- (`Props/C07.lean` §11: `attest_ignores_the_sender`,
                            -- `calldata_naming_another_relayer_rejected`).  (The compass-upload attester
                            -- derives the new contract address from the sender — abstracted, see below.)
+  postState : Bytes := []  -- the 32-byte state root a receipt WITHOUT status code carries in place of it
+                           -- (`Receipt.PostState`; `[]` for a receipt with a status code).  Part of the
+                           -- evidence bytes: `BytesToHash` re-encodes the decoded receipt and
+                           -- `statusEncoding` emits the root.  The router never reads it: the gate is
+                           -- `receipt` (= `Status`), which go-ethereum leaves 0 for such a receipt —
+                           -- `TxProof.ofReceiptField` builds both from the receipt's first field.
 deriving Repr, DecidableEq, Inhabited
+
+/-- The proof value of a `TxExecutedProof` whose serialized receipt has the first field `field`
+    (`none`: no serialized receipt at all): status and post-state are DECODED from it, as
+    `GetReceipt` does, not supplied. -/
+def TxProof.ofReceiptField (hash : Nat) (data : Bytes) (field : Option Bytes) (deployLog : Bool)
+    (variant enc : Nat) (sender : Option Nat) : TxProof :=
+  { hash := hash, data := data, receipt := field.bind receiptStatusOf, deployLog := deployLog,
+    variant := variant, enc := enc, sender := sender,
+    postState := match field with
+      | some f => receiptPostState f
+      | none => [] }
 
 inductive Winner where
   | none                   -- no evidence, or consensus not achieved
